@@ -68,6 +68,9 @@ def run_suite(res, prop, tier, seed, n_quick, n_thorough, n_req=1, force=None, o
         if tty_every and k % tty_every == 1:
             sc = S.on_tty(rng, sc)
             res.notes['on_serial_backend'] = res.notes.get('on_serial_backend', 0) + (sc.get('backend') == 'tty')
+        elif tty_every and k % tty_every == 3:
+            sc = S.on_gpsd(rng, sc)
+            res.notes['on_gpsd_backend'] = res.notes.get('on_gpsd_backend', 0) + 1
         out = S.run_scenario(sc)
         desc = S.describe(sc)
         cmd = S.model_cmd(sc, sk)
@@ -77,10 +80,18 @@ def run_suite(res, prop, tier, seed, n_quick, n_thorough, n_req=1, force=None, o
             for idx_, (rq, r) in enumerate(zip(sc['reqs'], results)):
                 sc['_idx'], sc['_results'] = idx_, results
                 why = oracle(sc, rq, r)
+                sig = None
+                if isinstance(why, tuple):
+                    why, sig = why
+                if why and sig is not None:
+                    # a failure that a listed finding may explain: only if the implementation does exactly what the model of
+                    # this backend does (otherwise it is something else and is reported as such)
+                    if proj(C.run_driver([cmd])[0]) != proj(out):
+                        sig = None
                 if why:
                     res.violation(f'{prop} oracle: {why}', {'property': prop, 'input': desc, 'request': f'{rq.op}:{rq.label}',
                                                             'implementation_says': out[:3000], 'reason': why, 'model_command': cmd[:6000]},
-                                  f'{prop}|{rq.op}|{why[:60]}')
+                                  sig or f'{prop}|{rq.op}|{why[:60]}')
         for pl in sc['plan']:
             res.notes.setdefault('attempt_kinds', {})
             res.notes['attempt_kinds'][str(pl[0])] = res.notes['attempt_kinds'].get(str(pl[0]), 0) + 1
